@@ -492,7 +492,7 @@ func (f *Frame) callContract(st *State, site ssa.CallInstruction, common *ssa.Ca
 	in := site.(ssa.Instruction)
 	// 1. preconditions
 	for _, r := range ct.Requires {
-		t := sc.evalBool(r.E)
+		t := sc.asGoal().evalBool(r.E)
 		label := f.siteLabel(in, "call."+callee.Name()+".requires."+r.Name)
 		o := c.Oblige("callreq", label, st.reach, t, f.pos(in), "precondition of "+ct.FullName()+": "+r.Src)
 		o.Inputs = f.topFrame().inputTerms()
@@ -525,7 +525,7 @@ func (f *Frame) callContract(st *State, site ssa.CallInstruction, common *ssa.Ca
 		bindResults(post, callee, res)
 	}
 	for _, e := range ct.Ensures {
-		t := post.evalBool(e.E)
+		t := post.asAssumption().evalBool(e.E)
 		c.Assume(st.reach, t, "ensures "+e.Name+" of "+ct.FullName())
 	}
 	c.W.noteContractUse(ct)
